@@ -202,7 +202,7 @@ def check_server(mido, tshim, acc, nclients, nmsgs, mode):
     def on_sleep(sec):
         sleeps[0] += 1
         _time.sleep(0.001)
-        if sleeps[0] > 400:
+        if sleeps[0] > 4000:
             raise Horizon()
 
     try:
@@ -223,7 +223,7 @@ def check_server(mido, tshim, acc, nclients, nmsgs, mode):
                 cl.send(m)
                 want.append((c, 10 + k))
         got = []
-        deadline = _time.time() + 3.0
+        deadline = _time.time() + 15.0
         try:
             while len(got) < len(want) and _time.time() < deadline:
                 if mode == 'poll':
